@@ -293,6 +293,8 @@ CheckCb(tk, e, tk2) ==
     \cup V0(e.self = 1, "C14", "the object whose callback runs is not the one access<T>() returns")
     \cup V0(e.s # NONE /\ (IsPhase(e.m) \/ e.m \in {M_ENTER, M_REENTER, M_EXIT, M_EXIT_GUARD}) => e.mact = e.s,
             "C14", "a callback ran on a state other than the one activeStateId() names: the dispatch reached the wrong state")
+    \cup V0(e.m = M_ENTRY_GUARD /\ e.s # NONE => (e.pend # NoT /\ e.pend[2] = e.s) \/ (e.pend = NoT /\ e.s = 0),
+            "C14", "an entry guard ran on a state other than the destination being evaluated (or, with nothing pending, the first declared state)")
     \cup V0(e.sid = e.s, "C14", "control.stateId() inside a callback is not the id of the state the callback belongs to")
     \cup V0(e.sid = e.s, "C06", "control.stateId() is not the callback's own state id")
     \cup V0(e.cact = e.mia, "C06", "control.isActive(id) disagrees with the machine's own isActive(id)")
